@@ -8,8 +8,10 @@ package main
 import (
 	"encoding/json"
 	"fmt"
+	"time"
 
 	"github.com/Trisia/randomness"
+	"github.com/Trisia/randomness/fft"
 )
 
 func init() { register("history", historyCmd) }
@@ -81,11 +83,27 @@ func historyCmd(job []byte, out *Out) error {
 		}
 		cs := histCombos(cl.N)
 		var v []string
-		for k, cb := range cs {
-			if j.Only >= 0 && k != j.Only {
-				continue
+		if j.Only < 0 {
+			// part of a history: requests the library refuses (and reports as errors) belong to a caller's life too
+			_, _ = fft.New(0)
+			_, _ = fft.New(1 << 28)
+		}
+		done := make(chan struct{})
+		go func() {
+			defer close(done)
+			for k, cb := range cs {
+				if j.Only >= 0 && k != j.Only {
+					continue
+				}
+				v = append(v, histCall(cb, bits, data))
 			}
-			v = append(v, histCall(cb, bits, data))
+		}()
+		select {
+		case <-done:
+		case <-time.After(240 * time.Second):
+			// a call that never returns: recorded as such (the solitary reference has a value there)
+			out.Emit(R{"ev": "hist", "id": j.ID, "plan": j.Plan, "vals": append(vals, []string{"hang"}), "only": j.Only, "hang": true})
+			return nil
 		}
 		vals = append(vals, v)
 	}
